@@ -105,6 +105,7 @@ def hostile_cases(rnd):
     cases.append(("period-mixed-ev", "BEGIN:VEVENT\r\nRDATE;VALUE=PERIOD:20240101/20240102T000000\r\nRDATE;VALUE=PERIOD:20240101T000000/20240102\r\nEND:VEVENT\r\n"))
     cases.append(("period-reversed", "BEGIN:VEVENT\r\nRDATE;VALUE=PERIOD:20240103T000000/20240102T000000\r\nEND:VEVENT\r\n"))
     cases.append(("rrule-odd", "BEGIN:VEVENT\r\nRRULE:FREQ=DAILY;UNTIL=garbage\r\nRRULE:FREQ=DAILY;BYDAY=\r\nRRULE:=;=\r\nRRULE:FREQ\r\nEND:VEVENT\r\n"))
+    cases.append(("rrule-until-time", "BEGIN:VEVENT\r\nRRULE:FREQ=WEEKLY;UNTIL=2010000\r\nRRULE:FREQ=DAILY;UNTIL=120000Z\r\nEND:VEVENT\r\n"))
     cases.append(("rrule-todo", "BEGIN:VTODO\r\nRRULE:FREQ=DAILY;COUNT=x\r\nEND:VTODO\r\n"))
     cases.append(("rrule-ok-roundtrip", "BEGIN:VTODO\r\nRRULE:FREQ=DAILY;UNTIL=20240101T000000Z;BYDAY=MO,-1TU;BYMONTH=5L\r\nEXRULE:FREQ=WEEKLY\r\nEND:VTODO\r\n"))
     cases.append(("geo", "BEGIN:VTODO\r\nGEO:1;2;3\r\nEND:VTODO\r\n"))
